@@ -502,6 +502,34 @@ def sql_floor_division_rule(program, res, rule="C05-S1", dialects=(("SQLite", "S
     Spark (the result then comes back as decimal.Decimal), which is why the generic template casts"""
     import re as _re
     n = 0
+    # the generic formatter is a derived expression: the floor of a division term.  That term has to be the float division, not `/`
+    gf = program.module("sql_model").functions.get("_db_int_divide_expr")
+    if gf is not None:
+        res.analysed(gf)
+        plain = [b for b in ast.walk(gf.node) if isinstance(b, ast.BinOp) and isinstance(b.op, ast.Div) and "expression.args" in unparse(b)]
+        if plain:
+            res.fail_at(rule, gf, "floor-division-of-truncated-quotient",
+                        f"`{unparse(plain[0])}` builds `//` on the SQL operator `/`: for integer operands the quotient is truncated towards zero before FLOOR — "
+                        f"(7, -7, -1) // (2, 2, 3) gives 3, -3, 0 on SQLite (and in the PostgreSQL text) and 3, -4, -1 on Pandas and Polars", plain[0])
+            n += 1
+        elif any(isinstance(c, ast.Call) and isinstance(c.func, ast.Attribute) and c.func.attr == "float_divide" for c in ast.walk(gf.node)):
+            res.ok(rule, "the generic `//` is the floor of the dialect's float division")
+            n += 1
+    # Spark: a float literal is a DECIMAL; the float division (and everything built on it) must not multiply by one
+    try:
+        sp = sqlexpr.Dialect(program, "SparkSQL", "SparkSQLModel")
+        kind_, info_ = sp.resolve("%/%")
+        texts_ = [sqlexpr.render(t) for t in sqlexpr.fold_function(sp.formatter_func(info_))] if kind_ == "formatter" else [str(info_)]
+        for text in texts_:
+            n += 1
+            if _re.search(r"\b1\.0\s*\*|\*\s*1\.0\b", text):
+                res.fail(rule, "SparkSQL:SparkSQLModel", "float-division-decimal-literal:SparkSQLModel",
+                         f"SparkSQLModel: `%/%` is emitted as `{text[:60]}`: the literal 1.0 is a DECIMAL(2,1) in Spark, so x %/% y and x // y come back as decimal.Decimal objects "
+                         f"(arithmetic on the column then raises)", "data_algebra/SparkSQL.py", 0)
+            else:
+                res.ok(rule, f"SparkSQLModel: the float division is `{text[:40]}` (no decimal literal)")
+    except AnalysisError:
+        pass
     for mod, cls in dialects:
         d_ = sqlexpr.Dialect(program, mod, cls)
         kind, info = d_.resolve("//")
@@ -535,6 +563,53 @@ def sql_floor_division_rule(program, res, rule="C05-S1", dialects=(("SQLite", "S
             else:
                 res.ok(rule, f"{cls}: `//` floors a float quotient (`{text[:50]}`)")
     res.expect_count(rule, "templates of `//` examined", n, 3)
+
+
+# witnesses for the value tables of the floored modulo and the floor division: integer and real operands of both signs, exact multiples included
+ARITHMETIC_WITNESSES = [(7, 2), (-7, 2), (7, -2), (-7, -2), (5, -7), (-1, 3), (6, 3), (-6, 3), (0, 5), (7.5, 2.0), (-7.5, 2.0), (7.5, -2.0), (-7.5, -2.0), (7, 2.0), (-7.0, 2)]
+
+
+def sqlite_arithmetic_tables(program, res, rule="C05-S2"):
+    """`%` / mod / remainder are documented as the floored modulo (numpy.mod: the sign of the divisor) and `//` as the floor division.  SQLite's own
+    `%` and integer `/` truncate, so the SQLite templates are CASE expressions — evaluated here, as text, over a table of witnesses with SQLite's
+    arithmetic (sa/sql3vl.py) and compared with Python's `%` and `//`, which numpy agrees with on these values"""
+    d_ = sqlexpr.Dialect(program, "SQLite", "SQLiteModel")
+    n = 0
+    for op, py in (("%", lambda a, b: a % b), ("mod", lambda a, b: a % b), ("remainder", lambda a, b: a % b), ("//", lambda a, b: a // b)):
+        kind, info = d_.resolve(op)
+        if kind != "formatter":
+            res.abstain(rule, f"SQLite `{op}`", "no formatter (emitted natively)")
+            continue
+        fn = d_.formatter_func(info)
+        for t in sqlexpr.fold_function(fn):
+            text = sqlexpr.render(t)
+            try:
+                tree = sql3vl.parse(text)
+            except sql3vl.Opaque as e:
+                res.abstain(rule, f"SQLite `{op}` template `{text[:50]}`", f"not interpretable: {e}")
+                continue
+            n += 1
+            bad = None
+            for (a, b) in ARITHMETIC_WITNESSES:
+                try:
+                    got = sql3vl.ev(tree, {"X": a, "Y": b})
+                except sql3vl.Opaque as e:
+                    bad = ("opaque", str(e))
+                    break
+                want = py(a, b)
+                if got is None or abs(float(got) - float(want)) > 1e-9:
+                    bad = (a, b, got, want)
+                    break
+            if bad is None:
+                res.ok(rule, f"SQLite `{op}`: the template gives Python's / numpy's value on all {len(ARITHMETIC_WITNESSES)} witnesses (both signs, integers and reals)")
+            elif bad[0] == "opaque":
+                res.abstain(rule, f"SQLite `{op}` template", bad[1])
+            else:
+                a, b, got, want = bad
+                res.fail(rule, f"SQLite:{getattr(fn, 'name', op)}", f"value-table:{op}",
+                         f"SQLiteModel emits `{op}` as `{text[:90]}…`; evaluated with SQLite's arithmetic at x = {a}, y = {b} it gives {got}, the documented (numpy) value is {want}",
+                         "data_algebra/SQLite.py", getattr(fn, "lineno", 0))
+    res.expect_count(rule, "SQLite arithmetic templates evaluated", n, 3)
 
 
 def sql_division_rule(program, res, dialect, rule):
@@ -589,8 +664,16 @@ def _s5_if_else_missing(program, res):
     import ast as _ast
     m = program.method("pandas_base", "PandasModelBase", "_if_else_expr", inherited=False)
     res.analysed(m)
+    def _is_where(e):
+        # numpy.where(...) itself, or handed through a one-argument helper (which keeps the array: the stores below are still needed)
+        if not isinstance(e, _ast.Call):
+            return False
+        if (dotted_name(e.func) or "").endswith("where"):
+            return True
+        return len(e.args) == 1 and not e.keywords and _is_where(e.args[0])
+
     where_vars = {st.targets[0].id for st in _ast.walk(m.node) if isinstance(st, _ast.Assign) and isinstance(st.targets[0], _ast.Name)
-                  and isinstance(st.value, _ast.Call) and (dotted_name(st.value.func) or "").endswith("where")}
+                  and _is_where(st.value)}
     if not where_vars:
         raise AnalysisError("_if_else_expr: numpy.where(...) result not found")
     stores = [st for st in _ast.walk(m.node) if isinstance(st, _ast.Assign) and isinstance(st.targets[0], _ast.Subscript)
@@ -665,6 +748,34 @@ def _s7_coalesce_missing_only(program, res):
         res.ok("C05-S7", "Pandas coalesce fills missing cells only (no test that also flags infinities)")
 
 
+def _numeric_test(t) -> bool:
+    txt = unparse(t)
+    return "is_numeric_dtype" in txt or ".kind" in txt or "is_integer_dtype" in txt or "is_float_dtype" in txt or "numbers.Number" in txt
+
+
+def _after_numeric_branch(fn_, call, _numeric_test=_numeric_test) -> bool:
+    """the call sits in the else part of a test for a numeric type, or after an `if <numeric test>: ... return` of the same block"""
+    def blocks(n_):
+        for fld in ("body", "orelse", "finalbody"):
+            b = getattr(n_, fld, None)
+            if isinstance(b, list) and b and isinstance(b[0], ast.stmt):
+                yield n_, fld, b
+        for h in getattr(n_, "handlers", []) or []:
+            yield h, "body", h.body
+
+    for owner in ast.walk(fn_):
+        for own, fld, b in blocks(owner):
+            for i, st in enumerate(b):
+                if not any(x is call for x in ast.walk(st)):
+                    continue
+                if isinstance(own, ast.If) and fld == "orelse" and _numeric_test(own.test):
+                    return True
+                for prev in b[:i]:
+                    if isinstance(prev, ast.If) and _numeric_test(prev.test) and prev.body and isinstance(prev.body[-1], (ast.Return, ast.Raise)):
+                        return True
+    return False
+
+
 def pandas_logic_rule(program, res, rule="C05-S3"):
     """`and` / `or` over truth values that may be missing: SQL and Polars compute three valued (Kleene) logic.  numpy.logical_and / logical_or
     decide by Python truthiness of None (and propagate pandas' <NA>), which is neither commutative nor Kleene; the Pandas entries therefore have to
@@ -704,6 +815,23 @@ def pandas_logic_rule(program, res, rule="C05-S3"):
         bare_numpy = any(isinstance(c, ast.Attribute) and unparse(c) in ("numpy.logical_and", "numpy.logical_or") for c in ast.walk(body))
         object_result = [c for c in ast.walk(body) if isinstance(c, ast.Call) and isinstance(c.func, ast.Attribute) and c.func.attr == "astype"
                          and c.args and unparse(c.args[0]) in ("object", "'object'", '"object"')]
+        # pandas' cast to the nullable boolean type takes truth values and the numbers 0 / 1 only ("Need to pass bool-like values"): a numeric
+        # operand (n and b, with n a count) has to be turned into truth values first, as numpy.logical_and / SQL / Polars' cast do
+        for fn_ in [body]:
+            for c in ast.walk(fn_):
+                if not (isinstance(c, ast.Call) and isinstance(c.func, ast.Attribute) and c.func.attr == "astype" and c.args
+                        and isinstance(c.args[0], ast.Constant) and c.args[0].value == "boolean"):
+                    continue
+                recv = c.func.value
+                if isinstance(recv, ast.Compare) or (isinstance(recv, ast.Call) and isinstance(recv.func, ast.Attribute) and recv.func.attr in ("ne", "eq", "isna", "notna")):
+                    continue  # a comparison's result: truth values already
+                if _after_numeric_branch(fn_, c):
+                    res.ok(rule, f"Pandas `{op}`: `{unparse(c)[:50]}` is reached only by operands that are not numbers")
+                else:
+                    res.fail(rule, "pandas_base:PandasModelBase._populate_impl_map", f"pandas-logic:{op}:numbers-refused",
+                             f"Pandas `{op}` casts every operand with `{unparse(c)[:50]}`: pandas takes only truth values, 0 and 1 there, so `n {op} b` with a numeric column "
+                             f"holding 2 raises TypeError 'Need to pass bool-like values' while SQLite, Polars and the scalar form use the number's truth value",
+                             "data_algebra/pandas_base.py", getattr(c, "lineno", 0))
         if looks_at_missing and object_result:
             res.fail(rule, "pandas_base:PandasModelBase._populate_impl_map", f"pandas-logic:{op}:object-result",
                      f"Pandas `{op}` answers in an object array holding None (`{unparse(object_result[0])[:40]}`): select_rows over it raises 'Cannot mask with non-boolean array containing NA', "
@@ -754,8 +882,68 @@ def masked_condition_rule(program, res, rule="C05-S8"):
                     res.fail_at(rule, f, f"masked-condition-asked-for-truth:{f.node.name}",
                                 f"`{unparse(c)[:60]}` hands the condition over as it is: for a pandas nullable column ((n > 2) with an Int64 n, a `boolean` column) numpy.where "
                                 f"raises TypeError 'boolean value of NA is ambiguous'; SQLite and Polars return the documented values", c)
+                # the branches: a nullable (masked) branch — what `and` / `or` answer in — makes numpy.where build an object array holding <NA>, which
+                # has no truth value and can not be compared; either the branches or the result go through a step before anything reads the array
+                if len(c.args) == 3:
+                    bare = [x for x in c.args[1:] if isinstance(x, ast.Name)]
+                    parent = [p_ for p_ in ast.walk(f.node) if isinstance(p_, ast.Call) and any(a_ is c for a_ in p_.args)]
+                    if len(bare) == 2 and not parent:
+                        res.fail_at(rule, f, f"where-result-keeps-NA:{f.node.name}",
+                                    f"`{unparse(c)[:60]}` takes the branches as they come and its result is used as it is: with a nullable boolean branch (the result of an and / or) "
+                                    f"the array holds <NA>, and using it as a condition, comparing or negating it raises 'boolean value of NA is ambiguous'", c)
+                    else:
+                        res.ok(rule, f"{f.node.name}: the result of numpy.where (or its branches) goes through a step that can replace <NA>")
     if n < 2:
         raise AnalysisError("pandas_base: numpy.where in _where_expr and _if_else_expr not found")
+    # is_in: numpy.isin compares entry by entry, which a nullable column refuses for its missing entries
+    pim = program.method("pandas_base", "PandasModelBase", "_populate_impl_map", inherited=False)
+    entry = None
+    for d_ in ast.walk(pim.node):
+        if isinstance(d_, ast.Dict):
+            for k, v_ in zip(d_.keys, d_.values):
+                if isinstance(k, ast.Constant) and k.value == "is_in":
+                    entry = v_
+    if entry is None:
+        raise AnalysisError("anchor vanished: Pandas implementation of is_in")
+    if isinstance(entry, ast.Name) and entry.id in mod.functions:
+        h = mod.functions[entry.id]
+        res.analysed(h)
+        ps = h.params()
+        for c in ast.walk(h.node):
+            if isinstance(c, ast.Call) and dotted_name(c.func) == "numpy.isin" and c.args and isinstance(c.args[0], ast.Name) and ps and c.args[0].id == ps[0]:
+                if _after_numeric_branch(h.node, c, lambda t: "na_value" in unparse(t) or "isna" in unparse(t) or "BaseMasked" in unparse(t)):
+                    res.ok(rule, f"{h.node.name}: numpy.isin is reached only by columns without a missing value of their own")
+                else:
+                    res.fail_at(rule, h, f"is-in-masked-column:{h.node.name}",
+                                f"`{unparse(c)[:50]}` is handed the column as it is: for a nullable (masked) column with a missing entry — the result of an and / or — "
+                                f"numpy.isin raises 'boolean value of NA is ambiguous'; a missing entry is in no set", c)
+    else:
+        res.abstain(rule, "Pandas is_in", "not bound to a module function")
+    # the normalising helper itself: a refusal it swallows must not end in handing the condition back unread — numpy takes nan (the missing value
+    # of a text or categorical column) for True, where / if_else document the else branch / None
+    for hname in sorted({(dotted_name(a0.func) or "").split(".")[-1] for f in program.all_functions() if f.module is mod and f.node.name in ("_where_expr", "_if_else_expr")
+                         for c in ast.walk(f.node) if isinstance(c, ast.Call) and dotted_name(c.func) == "numpy.where" and c.args
+                         for a0 in [c.args[0]] if isinstance(a0, ast.Call)}):
+        h = mod.functions.get(hname)
+        if h is None:
+            continue
+        res.analysed(h)
+        for owner in ast.walk(h.node):
+            for fld in ("body", "orelse"):
+                b = getattr(owner, fld, None)
+                if not (isinstance(b, list) and b and isinstance(b[0], ast.stmt)):
+                    continue
+                for i, st in enumerate(b):
+                    if isinstance(st, ast.Try) and any(all(isinstance(x, ast.Pass) for x in hd.body) for hd in st.handlers):
+                        later = b[i + 1:]
+                        looks = any(isinstance(x, ast.Call) and isinstance(x.func, ast.Attribute) and x.func.attr in ("isna", "isnull", "fillna", "notna")
+                                    for st2 in later for x in ast.walk(st2))
+                        if looks:
+                            res.ok(rule, f"{hname}: after a refused conversion the missing entries are still looked at")
+                        else:
+                            res.fail_at(rule, h, f"masked-condition-fallback-unread:{hname}",
+                                        f"{hname} swallows the refusal of `{unparse(st.body[0])[:60]}` and hands the condition back as it is: a text (`str`) or categorical "
+                                        f"condition with a missing entry reaches numpy.where, which takes nan for True — where() documents the else branch for a missing condition", st)
 
 
 def _s9_total_user_functions(program, res, rule="C05-S9"):
@@ -853,6 +1041,7 @@ def run(program, res, tier):
     res.rule("C05-S9", "SQLite: registered Python math functions are total (numpy's -inf / nan / inf instead of an exception)")
     _s9_total_user_functions(program, res)
     sql_floor_division_rule(program, res)
+    sqlite_arithmetic_tables(program, res)
     res.rule("C05-S8", "Pandas: helpers that tell columns from scalars know every column type the implementations return")
     _s8_column_operand_kinds(program, res)
     masked_condition_rule(program, res)
